@@ -120,5 +120,6 @@ func Ops() []*core.Op {
 			},
 			Signature: func(raw json.RawMessage, impl any) string { return "pass" },
 		},
+		filterOp(),
 	}
 }
